@@ -163,7 +163,11 @@ func c20Corpus(tier string) []c20Script {
 		}
 		plain = p2
 	}
-	group("shape", 3, plain)
+	if quick {
+		group("shape", 5, plain)
+	} else {
+		group("shape", 3, plain)
+	}
 	group("shape-outside-bottom-label", 2, marg)
 	// 2. 3d / multiple
 	var d3, mult []string
@@ -181,6 +185,33 @@ func c20Corpus(tier string) []c20Script {
 	}
 	group("3d", 3, d3)
 	group("multiple", 4, mult)
+	// 2b. 3d / multiple shapes (otherwise margin-free: inside label) as SOURCE and as DESTINATION of edges that leave /
+	// enter through every side: cycles, fan-in + back edge to an earlier rank, fan-out + back edge, a long back edge over
+	// two ranks, a self loop; every direction, so that "up-left of the shape" occurs in each orientation
+	{
+		mods := [][2]string{{"rectangle", "style.3d: true"}, {"rectangle", "style.multiple: true"}, {"hexagon", "style.3d: true"},
+			{"square", "style.3d: true"}, {"oval", "style.multiple: true"}, {"diamond", "style.multiple: true"},
+			{"cylinder", "style.multiple: true"}, {"class", "style.multiple: true"}, {"page", "style.multiple: true"},
+			{"person", "style.multiple: true"}, {"cloud", "style.multiple: true"}, {"step", "style.multiple: true"}}
+		nm := len(mods)
+		if quick {
+			nm = 2
+		}
+		for di, dir := range c20Dirs {
+			for k := 0; k < nm; k += 2 {
+				var b strings.Builder
+				fmt.Fprintf(&b, "direction: %s\n", dir)
+				for j := k; j < k+2 && j < nm; j++ {
+					m := mods[(j+di)%len(mods)]
+					if quick {
+						m = mods[(j+di)%4]
+					}
+					b.WriteString(c20OffsetBlock(fmt.Sprintf("q%d", j), m[0], m[1]))
+				}
+				add("offset-src-dst", b.String())
+			}
+		}
+	}
 	// 3. outside labels and icons in every outside position
 	var ol, oi, ovl, osm, both, l3 []string
 	for i, pos := range c20Outside {
@@ -195,7 +226,7 @@ func c20Corpus(tier string) []c20Script {
 	}
 	per := 2
 	if quick {
-		per = 6
+		per = 12
 	}
 	group("outside-label", per, ol)
 	group("outside-icon", per, oi)
@@ -263,6 +294,59 @@ func c20Corpus(tier string) []c20Script {
 	add("sizes", "a: {width: 400; height: 30}\nb: {width: 20; height: 300}\nc: {shape: circle; width: 200}\na -> b: label on the edge\nb -> c\nc -> a\na -> c: another one that is long enough to matter\n")
 	add("sizes", "direction: right\na: A very long label that makes the shape very wide indeed\nb: {shape: diamond; width: 30; height: 30}\nc: {shape: cloud; width: 500; height: 80}\na -> b -> c -> a\n")
 	return out
+}
+
+// c20OffsetBlock: one 3d/multiple shape <p>s in the middle of a small graph whose edges leave and enter it on every side
+func c20OffsetBlock(p, sh, style string) string {
+	decl := c20ShapeDecl(p+"s", sh, style)
+	return fmt.Sprintf("%[2]s%[1]sa -> %[1]ss\n%[1]sb -> %[1]ss\n%[1]ss -> %[1]sa\n%[1]ss -> %[1]sc\n%[1]ss -> %[1]sd\n%[1]sc -> %[1]ss\n%[1]sa -> %[1]se\n%[1]se -> %[1]ss\n%[1]ss -> %[1]sb: back\n%[1]sd -> %[1]sf\n%[1]sf -> %[1]ss\n", p, decl) +
+		// the self loop on a separate shape of the same kind: it displaces its shape (C20-offset-self-loop)
+		c20ShapeDecl(p+"l", sh, style) + fmt.Sprintf("%[1]sl -> %[1]sl\n%[1]sa -> %[1]sl\n", p)
+}
+
+// c20OffsetRandom: random class for the same construct: a 3d/multiple shape with random in/out/back edges
+func c20OffsetRandom(r *Rng) string {
+	var b strings.Builder
+	fmt.Fprintf(&b, "direction: %s\n", r.Pick(c20Dirs))
+	n := r.Range(3, 6)
+	hub := r.Intn(n)
+	for i := 0; i < n; i++ {
+		if i == hub {
+			sh := "rectangle"
+			style := "style.multiple: true"
+			if r.Bool() {
+				style = "style.3d: true"
+				sh = r.Pick(c20ThreeD)
+			} else if r.Chance(0.6) {
+				sh = r.Pick(c20Shapes)
+			}
+			extra := style
+			if r.Chance(0.3) {
+				extra += fmt.Sprintf("; width: %d; height: %d", r.Range(60, 300), r.Range(60, 300))
+				if sh == "square" || sh == "circle" {
+					extra = style
+				}
+			}
+			b.WriteString(c20ShapeDecl(fmt.Sprintf("n%d", i), sh, extra))
+		} else {
+			fmt.Fprintf(&b, "n%d\n", i)
+		}
+	}
+	for k, ne := 0, r.Range(n, 2*n+2); k < ne; k++ {
+		a, c := r.Intn(n), r.Intn(n)
+		if r.Chance(0.6) { // most edges touch the hub
+			if r.Bool() {
+				a = hub
+			} else {
+				c = hub
+			}
+		}
+		if a == c && r.Chance(0.8) { // few self loops: one on the hub displaces it for all its edges
+			continue
+		}
+		fmt.Fprintf(&b, "n%d %s n%d\n", a, r.Pick([]string{"->", "->", "->", "<-", "<->", "--"}), c)
+	}
+	return b.String()
 }
 
 // ---- random scripts ----
